@@ -158,7 +158,7 @@ func (s %(S)s) Error() string { return "e" + strconv.Itoa(int(s)) }
 		case %(B)s:
 			out += "b" + strconv.Itoa(len(v))
 		}
-		out += fmt.Sprintf("%%d:%%s;", x.%(m)s(i+1), x)
+		out += fmt.Sprintf("%%d:%%s;", x.%(m)s(i+1), x.String())
 	}
 	var err error = %(S)s(7)
 	return out + err.Error()""" % locals(), {'"fmt"', '"strconv"'})
